@@ -1,10 +1,9 @@
-\* deviation demo, not part of any plan.  expected: Invariant ErrorsExact (or GenStackDiscipline) is violated (a second invocation of the same definition is reported as cyclic)
 SPECIFICATION Spec
-CONSTANT Deviations = {"NoStackPop"}
-CONSTANT Family = "graph"
-CONSTANT W1 = 2
-CONSTANT W2 = 1
-CONSTANT W3 = 1
+CONSTANT Deviations = {}
+CONSTANT Family = "edge"
+CONSTANT W1 = 1
+CONSTANT W2 = 2
+CONSTANT W3 = 2
 CONSTANT FilterLevel = 2
 CONSTANT BodyLevel = 1
 INVARIANT Refines
@@ -20,4 +19,5 @@ INVARIANT GenStackDiscipline
 INVARIANT GenDepthBounded
 INVARIANT NotStuck
 INVARIANT FrameInvariant
+INVARIANT Emit
 CHECK_DEADLOCK FALSE
